@@ -356,53 +356,77 @@ NOT_BUILT = "check not built yet in this session (design in DESIGN.md section 3)
 ADDED = {
     "C01": "Also: a falsy seed, arguments without any value, the caller's own "
            "combos / constants objects swept twice (second sweep judged) and "
-           "grids of 81-1024 settings under every strategy.",
+           "grids of 81-1024 settings under every strategy, values of several "
+           "types within one argument, values given as tuples / generators / "
+           "arrays, constants taken through **kwargs, array / list results "
+           "split.",
     "C02": "Also: the same request through a long-lived Runner that ran with "
-           "another argument order before, and integer-array results.",
+           "another argument order before, integer-array results, mixed numeric "
+           "and tuple-valued case values, cases as one-shot iterators.",
     "C03": "Also: falsy constants / attributes, declared argument order "
            "different from the signature, and the caller's same case dicts "
-           "swept twice.",
+           "swept twice, mixed numeric and un-orderable (complex) case values, "
+           "an earlier run with the argument names given in the other order.",
     "C04": "Also: crops of 101-128 batches; the BFS state includes whether "
-           "the long-lived Crop object took part.",
+           "the long-lived Crop object took part; an earlier un-reaped sweep "
+           "(other shuffle / constant) through the same Crop object.",
     "C05": "Also: a second long-lived Harvester, a lazily loading (chunks) "
            "Harvester, ellipsis combos through one re-used dict, and the "
-           "dataset replaced by one without variables.",
+           "dataset replaced by one without variables, a fractional coordinate "
+           "value joining integer ones, dict cases with varying key order.",
     "C06": "Also: constants given at sow time (including falsy overrides), "
            "another session harvesting into the file between sow and reap, an "
            "earlier complete round through the same Crop object, a shuffle "
-           "given to the constructor, falsy constants / resources / attrs.",
+           "given to the constructor, falsy constants / resources / attrs, an "
+           "earlier un-reaped sweep (also of another function version under "
+           "the same crop name).",
     "C07": "Also: cases x sub-grid through sow_cases, falsy constants, the "
            "farmer's constants changed and the same Crop sown again, a re-sow "
            "with exactly one batch less work (refused or right), crops of "
-           "101-257 batches.",
+           "101-257 batches, the batch request given to the sow call, a constant "
+           "of a new name given for one sow only, delete_all + sow again, a "
+           "reloaded Crop sowing again; the reference run goes through a twin "
+           "farmer.",
     "C08": "Also: finished results damaged from outside followed by check_bad, "
            "another session sowing another function over the empty crop, and "
            "crops of 12 and 101 batches with a sparser alphabet (bounded "
-           "depth).",
+           "depth); failures by StopIteration, batch ids as a one-shot "
+           "iterator, a batch count above the number of settings.",
     "C09": "Also: crops of 11-101 batches, integer / non-square / 3-d array "
            "results, and the same long-lived Crop sown again with another "
-           "last batch.",
+           "last batch, a shuffle given to the constructor only.",
     "C10": "The recovery re-runs the user's sow script (default autoload) "
            "instead of a forgiving fallback; a scenario with a short last "
-           "batch was added.",
+           "batch and one sown shuffled were added; the recovery decides by "
+           "what the crop reports and retries nothing; the pre-state is sown "
+           "by the farmer that holds the earlier data.",
     "C12": "Also: failure and retry through one long-lived session, results "
            "shorter / longer than their batch (surplus entries that are falsy, "
-           "bool results whose last value is False).",
+           "bool results whose last value is False), a sampler without a "
+           "table yet, a three-output function described with one name too "
+           "few; the crop is sown from the farmer that holds the earlier data.",
     "C13": "Also: unlabelled internal dimensions and sequences of "
            "parse_into_cases queries (same arguments twice, fewer parameters "
-           "next).",
+           "next), dataset dimension order different from the variables' axis "
+           "order, the find-harvest-find loop with the signature in the other "
+           "order.",
     "C14": "Also: a second dataset saved under the same name (the one loaded "
-           "before must keep its contents).",
+           "before must keep its contents) and the engine given per call.",
     "C15": "Also: long-lived Crop objects sown repeatedly, per-sow constants "
            "overriding the Runner's, a long-lived list-choice Sampler with "
-           "per-run overrides; the state includes the live objects.",
+           "per-run overrides, a string-valued argument, a crop sown again "
+           "before it is reaped; the state includes the live objects.",
     "C16": "Also: B = 12 (two-digit ids) with selected subsets / selections.",
-    "C17": "Also: every stored dimension order, missing error values, z = 0.",
+    "C17": "Also: every stored dimension order, missing error values, z = 0, "
+           "non-monotonic z values; the colour-map oracle does not use the "
+           "library's lookup; option sets chosen by hash.",
     "C18": "Also: every stored dimension order and reordered sub-selections "
-           "as explicit orders.",
+           "as explicit orders, two aggregated dimensions, fused dimensions in "
+           "both orders with their labels checked.",
     "C19": "Also: samples of 33-500 values in every two-chunk split, "
            "estimates at scales 100 and 0.01; successor states are copies of "
-           "the real objects and every intermediate matrix state is read.",
+           "the real objects and every intermediate matrix state is read; the "
+           "covariance matrix fed in chunks (incl. square chunks).",
     "C20": "Also: exponents where the printed width changes (+-99/100/101) "
            "and the ends of the float range.",
 }
